@@ -13,6 +13,7 @@ mod orders;
 mod gctrace;
 mod rng;
 mod stepbudget;
+mod parsework;
 mod pathnorm;
 mod prog;
 
@@ -26,6 +27,7 @@ fn main() {
         "pathnorm" => pathnorm::main(&rest),
         "gcreplay" => gcreplay::main(&rest),
         "gctrace" => gctrace::main(&rest),
+        "parsework" => parsework::main(&rest),
         "stepbudget" => stepbudget::main(&rest),
         "errloc" => errloc::main(&rest),
         "entry" => entry::main(&rest),
